@@ -8,8 +8,8 @@
    A tie theorem then reads   run W fuel k_flow_f args = inject (model_f args)   and is re-checked
    against the regenerated term on every run.
 
-   Mutable objects are single-owner values: a method call  x.m(a)  on a LOCAL name x yields a result and
-   the new value of x (w_meth); `with p.m(a) as y: body` binds y to what the method returns and, when the
+   Mutable objects are single-owner values: a method call  x.m(a)  on a LOCAL name x - or on an attribute path
+   x.a.b below one - yields a result and the new value of the receiver, which is written back (w_meth, w_setattr); `with p.m(a) as y: body` binds y to what the method returns and, when the
    body ends, gives the final y back to p (w_exit).  Aliasing between two names is not modelled: a world
    must not be instantiated for a function that relies on it (each tie file says which functions it
    covers).  No proofs about particular functions here. *)
@@ -114,6 +114,28 @@ Definition owner_of (env : penv) (e : pexp) : option string :=
   | _ => None
   end.
 
+(* A "place" is a local name or an attribute path below one (x, x.a, x.a.b): a method call writes its receiver back there,
+   rebuilding the objects on the path with w_setattr (`self._data.extend(..)` updates `self`); a receiver that is not a place
+   (or whose root is not a local) is left alone *)
+Fixpoint place_get (env : penv) (p : pexp) : option V :=
+  match p with
+  | PName x => lookup x env
+  | PAttr q a => match place_get env q with
+                 | Some o => match w_attr W a o with Ok v => Some v | Raise _ => None end
+                 | None => None
+                 end
+  | _ => None
+  end.
+Fixpoint place_set (env : penv) (p : pexp) (v : V) : penv :=
+  match p with
+  | PName x => match lookup x env with Some _ => update x v env | None => env end
+  | PAttr q a => match place_get env q with
+                 | Some o => match w_setattr W a o v with Ok o' => place_set env q o' | Raise _ => env end
+                 | None => env
+                 end
+  | _ => env
+  end.
+
 (* expressions are evaluated left to right; the environment is threaded because a method call may
    change its receiver *)
 Fixpoint eval (env : penv) (e : pexp) {struct e} : res (V * penv) :=
@@ -137,7 +159,7 @@ Fixpoint eval (env : penv) (e : pexp) {struct e} : res (V * penv) :=
       let* (rv, env1) := eval env recv in
       let* (vs, env2) := evals env1 args in
       let* (r, rv') := w_meth W m rv vs in
-      Ok (r, match owner_of env recv with Some x => update x rv' env2 | None => env2 end)
+      Ok (r, place_set env2 recv rv')
   | PCmp op a b => let* (x, env1) := eval env a in let* (y, env2) := eval env1 b in
                    let* r := w_cmp W op x y in Ok (w_bool W r, env2)
   | PNot e' => let* (t, _, env1) := truth env e' in Ok (w_bool W (negb t), env1)
